@@ -56,9 +56,7 @@ Theorem C12_table_checks :
   table_complete_for order_definitions = true /\
   table_case_consistent_for order_definitions = true /\
   table_curves_param_plain_for order_definitions = true.
-Proof.
-  exact (conj table_complete_ok (conj table_case_consistent_ok table_curves_param_plain_ok)).
-Qed.
+Proof. exact table_checks. Qed.
 
 (* 1. writer and reader consult the same table in the same way *)
 Theorem C12_order_tables_agree : forall v k m, is_std k = true ->
@@ -72,7 +70,7 @@ Proof. exact order_case_insensitive. Qed.
 
 Theorem C12_upper_facts : forall m,
   upper (upper m) = upper m /\ upper (lower m) = upper m.
-Proof. intros m. split; [apply upper_idem|apply upper_lower]. Qed.
+Proof. exact upper_facts. Qed.
 
 (* 1+2: the order the writer lays a line out in (keyed by the original mnemonic) is the order
    the reader applies to it (keyed by the case-mapped name; ~Curves / ~Parameter: value first) *)
@@ -159,10 +157,7 @@ Theorem C12_swap_on_disk : forall fstr lw mw it,
   format_item fstr ValueDescr lw mw it =
     layout [] (i_orig it) (pad1 lw it) (i_unit it) (pad2 fstr ValueDescr mw it) (vstr fstr (i_value it))
            [32] [32] (i_descr it) [].
-Proof.
-  intros fstr lw mw it Hx. destruct (well_orders_differ it Hx) as [H1 H2].
-  split; [exact H1|]. split; [exact H2|]. split; [apply format_descr_first|apply format_value_first].
-Qed.
+Proof. exact swap_on_disk. Qed.
 
 (* ---- non-vacuity ------------------------------------------------------------------------ *)
 Definition ex_it : hitem := new_item (s2l "Comp") [] (VStr (s2l "ANY OIL CO.")) (s2l "COMPANY").
